@@ -85,6 +85,8 @@ pub struct Profile {
     pub nondurable: u32,
     /// allow panicking predicates (transaction poisoning)
     pub allow_panic: bool,
+    /// one case in this many may contain bulk writes (see op_bulk)
+    pub bulk_one_in: u8,
     pub max_readers: usize,
     pub key_universe: usize,
     /// verify complete committed contents after every commit / abort (else only at the end)
@@ -121,6 +123,7 @@ impl Profile {
             mismatch: 6,
             nondurable: 80,
             allow_panic: false,
+            bulk_one_in: 12,
             max_readers: 6,
             key_universe: 96,
             verify_each_commit: true,
@@ -1804,9 +1807,10 @@ impl Machine {
         Ok(())
     }
 
-    /// one case in twelve may contain bulk writes
+    /// one case in `profile.bulk_one_in` (default twelve) may contain bulk writes
     pub fn set_bulk_from(&mut self, tape: &Tape) {
-        self.bulk_mode = tape.cfg[3] % 12 == 11; // never for a zeroed configuration record
+        let n = self.profile.bulk_one_in.max(2);
+        self.bulk_mode = tape.cfg[3] % n == n - 1; // never for a zeroed configuration record
     }
 
     pub fn run_tape(&mut self, tape: &Tape) -> R {
